@@ -127,8 +127,8 @@ Proof. exact class_errors_table. Qed.
    `super` access is the enclosing method's self, as compiler.rs `super_` now pushes it (side condition, re-read from
    the source); the model variant of the compiler before commit 0fbde2d provably does not refine the Spec --- *)
 Theorem C07_side_super_receiver :
-  src_super_receiver_is_enclosing_method_self = true /\
-  sem_mech_gen (negb src_super_receiver_is_enclosing_method_self) = sem_mech.
+  super_mode_of_code src_super_receiver_code = Some SuperEnclosingMethod /\
+  option_map sem_mech_gen (super_mode_of_code src_super_receiver_code) = Some sem_mech.
 Proof. vm_compute. split; reflexivity. Qed.
 Theorem C07_eval_mech_eq_spec : forall p, eval_mech p = eval_spec p.
 Proof. exact eval_mech_eq_spec. Qed.
@@ -139,6 +139,11 @@ Theorem C07_eval_mech_eq_spec_refuted_old :
   exists p, nested_super p = true /\ show_outcome (eval_mech_old p) <> show_outcome (eval_spec p) /\
             show_outcome (eval_mech p) = show_outcome (eval_spec p).
 Proof. exact eval_mech_eq_spec_refuted_old. Qed.
+Theorem C07_eval_mech_eq_spec_refuted_any_static :
+  show_outcome (eval_spec ex_static_factory) = "cap~I.m~P.m~5~true#ok" /\
+  show_outcome (eval_mech_any_static ex_static_factory) <> show_outcome (eval_spec ex_static_factory) /\
+  show_outcome (eval_mech ex_static_factory) = show_outcome (eval_spec ex_static_factory).
+Proof. exact eval_mech_eq_spec_refuted_any_static. Qed.
 Theorem C07_super_captured_at_definition : forall S c st cd st' o, Inv st -> (S = sem_mech \/ S = sem_spec) ->
   exec_class S c st cd = (st', o) ->
   Inv st' /\
@@ -169,4 +174,5 @@ Print Assumptions C07_eval_mech_eq_spec.
 Print Assumptions C07_eval_mech_eq_spec_any_fuel.
 Print Assumptions C07_super_captured_at_definition.
 Print Assumptions C07_eval_mech_eq_spec_refuted_old.
+Print Assumptions C07_eval_mech_eq_spec_refuted_any_static.
 Print Assumptions C07_side_super_receiver.
